@@ -255,3 +255,11 @@ TEXT["C02"].update(
 TEXT["C19"].update(
     level=TEXT["C19"]["level"] + " Prefixes: str_prefix / str_prefix4 / str_prefix6 admit a prefix only with a length that fits its family (<= 32 / <= 128) -- the precondition of the Kani-proved consumers (R9 slices of the three closure bodies).",
     note=TEXT["C19"]["note"].replace("`str_prefix*`, ", "").replace("str_prefix*, ", ""))
+
+TEXT["C08"].update(
+    engine="verus+kani",
+    level=TEXT["C08"]["level"] + " Body-independent bounded check (Kani, real Acl::check as a black box): rules with 0..2 symbolic IPv4 prefixes, match-unix unset/false/true, symbolic IPv4 client -- a rule matches iff every condition it has holds.")
+TEXT["C12"].update(
+    level=TEXT["C12"]["level"] + " Body-independent bounded check (Kani, real serialise_fixed as a black box): field width 4 (quick) / 16 (thorough), every value length up to width + 2, symbolic octets.")
+TEXT["C07"].update(
+    level=TEXT["C07"]["level"] + " OutQuery::handle_query_internal (Verus): the reply handed back answers a query carrying exactly the client's question; a reply that arrived over UDP is used only if it echoes the id that was sent and is not truncated (otherwise the exchange is repeated over TCP); a query that arrived over TCP is forwarded over TCP.")
